@@ -156,7 +156,7 @@ def simple_cases(tier):
             for listing in ("fwd", "bwd"):
                 for nmol in (1, 2, 3):
                     yield dict(kind="simple", sec=sec, n=n, entry=entry, listing=listing, nmol=nmol)
-    for macro in ("whole", "partial"):
+    for macro in ("whole", "partial", "with-function", "with-function+types"):
         for nmol in (1, 2):
             yield dict(kind="macro", macro=macro, nmol=nmol)
     for listing in ("fwd", "bwd"):
@@ -204,12 +204,20 @@ def check_macro(case, stats):
     defines = ["KB 0.35 1250", "ANG 120.0", "FLEX"]
     bonds = ["1 2 1 KB"] if case["macro"] == "whole" else ["1 2 1 0.47 1250"]
     angles = ["1 2 3 2 ANG 25.0"]
-    text = top_text(AT_LINES, {}, ["TA", "TB", "TC"], {"bonds": bonds + ["2 3 1 0.2 300"], "angles": angles}, case["nmol"], defines=defines)
+    types = {}
+    if case["macro"].startswith("with-function"):
+        # the macro is the only token after the atoms: it supplies the function type as well; with and without a bonded
+        # type of the same atom types in the tables (which must not be used: the interaction has its parameters)
+        defines = defines + ["GBF 1 0.35 1250", "GAF 2 120.0 25.0"]
+        bonds, angles = ["1 2 GBF"], ["1 2 3 GAF"]
+        if case["macro"] == "with-function+types":
+            types = {"bondtypes": ["TA TB 1 0.99 999"], "angletypes": ["TA TB TC 2 99.0 9.0"]}
+    text = top_text(AT_LINES, types, ["TA", "TB", "TC"], {"bonds": bonds + ["2 3 1 0.2 300"], "angles": angles}, case["nmol"], defines=defines)
     try:
         top = read_pre(text)
     except Exception as exc:  # noqa
         return [crash_violation(exc, case, assertion="preprocess-does-not-crash")], True
-    wantb = ("1", "0.35", "1250") if case["macro"] == "whole" else ("1", "0.47", "1250")
+    wantb = ("1", "0.35", "1250") if case["macro"] != "partial" else ("1", "0.47", "1250")
     for n, (ib, ia) in enumerate(zip(inter_of(top, "bonds"), inter_of(top, "angles"))):
         if ((0, 1), wantb) not in ib:
             viols.append(dict(assertion="define-macros-substituted", tags=[], message=f"instance {n} bonds {ib}", case=case, detail={}))
